@@ -447,6 +447,9 @@ pub fn run_one(run: &Value) -> Vec<Value> {
         // hook events of the code under test go into the same totally ordered log
         let hm = m.clone();
         mpd_client::protocol::verif::set_sink(Some(Box::new(move |ev, fields| {
+            if ev.starts_with("rx_") {
+                return; // buffer-level events of the receive loops: bound by `mpdv wire` / ReceiveTrace.tla, not here
+            }
             let mut s = hm.lock().unwrap();
             let mut v = json!({"e": "hook", "h": ev, "some": -1, "ok": -1, "in_progress": -1});
             for (k, x) in fields {
